@@ -2,6 +2,7 @@
 linker-cache state concretiser, trace projection and validation against
 Linker.tla / BuildCache.tla / Lifecycle.tla."""
 import json
+import re
 import os
 import sys
 import threading
@@ -346,3 +347,37 @@ def validate_linker_trace(chk, events, max_kills=0, label=""):
 def parallel(fn, items, workers=4):
     with ThreadPoolExecutor(max_workers=workers) as ex:
         return list(ex.map(fn, items))
+
+
+# --------------------------------------------------------------------------- whole-build trace validation (Pipeline.tla)
+
+_golist_memo = {}
+
+
+def validate_pipeline(chk, events, src: Path, sb, kills=None, label="", cold_gk=True, linker_init=None, cfg_of=None, goflags=()):
+    """Validate the complete hook trace of one or more real builds against spec/Pipeline.tla
+    (PipelineTrace.tla).  A rejection is a lead: MODEL-MISMATCH, never a verdict by itself."""
+    from vf import pipeline
+    key = (str(src), tuple(goflags))
+    if key not in _golist_memo:
+        _golist_memo[key] = pipeline.go_list(src, sb.env(), args=(".",), flags=goflags)
+    ok, info = pipeline.validate(events, golist=_golist_memo[key], kills=kills, cold_gk=cold_gk, linker_init=linker_init, cfg_of=cfg_of)
+    r = info.pop("_tlc", None)
+    tr = info.pop("_trace", "")
+    if r is not None:
+        chk.states += r.distinct
+        chk.transitions += r.states
+    if ok:
+        chk.traces_validated += 1
+        chk.extra.setdefault("pipeline_traces", []).append({"label": label, "events": info.get("events"), "tops": info.get("tops"), "states": info.get("states")})
+    else:
+        m = re.search(r'"REJECTED-AT", (\d+)', info.get("tail", "") or "")
+        at = int(m.group(1)) if m else None
+        lines = tr.splitlines()
+        nxt = lines[at - 1] if at and at - 1 < len(lines) else None
+        print(f"MODEL-MISMATCH: property={chk.pid} {label}: the recorded events are not a behaviour of Pipeline.tla "
+              f"({info.get('violated') or 'unmatched event'} at line {at}: {nxt})", flush=True)
+        chk.extra.setdefault("pipeline_rejected", []).append({"label": label, "violated": info.get("violated"), "line": at, "event": nxt})
+        (REPLAYS / chk.pid).mkdir(parents=True, exist_ok=True)
+        (REPLAYS / chk.pid / f"pipeline-rejected-{label.replace('/', '_')}.ndjson").write_text(tr)
+    return ok
